@@ -38,6 +38,8 @@ func c10(c *Ctx) {
 	r.Rule("C10.invalid-clean", "guards dominate effects: WriteControl reaches the mutex/transport only with isControl(type) and len(data) <= 125; beginMessage succeeds only for control/data types; flushFrame calls write for a control frame only when final and length <= 125, the compared length being the one encoded in the header; rejected requests never call writeFatal")
 	r.Rule("C10.deadline", "the time given to SetWriteDeadline before each transport write is the section's deadline parameter; callers of write pass the current Conn.writeDeadline, which only SetWriteDeadline(t) assigns (from its parameter)")
 	r.Assume("net.Conn implementations report partial writes through a non-nil error (io.Writer contract)")
+	r.Rule("C10.detector-released", "the concurrent-write detector (Conn.isWriting) is released on every return of the function that set it, also when the write failed: later writes then return the recorded error instead of panicking with 'concurrent write'")
+	isWritingBracket(c, "C10.detector-released")
 	t := newTransport(c)
 	t.classify("C10.err-to-fatal")
 
@@ -444,5 +446,52 @@ func opcodePredicates(c *Ctx, rule string) {
 			ok, why = false, name+" cannot be evaluated over the domain (unrecognised form)"
 		}
 		c.R.Check(rule, name, "opcode-predicate-table", fn.Pos(), ok && len(paths) > 0, why)
+	}
+}
+
+// isWritingBracket: every function that sets Conn.isWriting = true resets it
+// to false before each of its returns.
+func isWritingBracket(c *Ctx, rule string) {
+	f := c.P.Field("Conn", "isWriting")
+	n := 0
+	seen := map[*ssa.Function]bool{}
+	for _, st := range c.P.FieldStoreSites(f) {
+		for _, fn := range c.hostsOf(st.Parent()) {
+			if seen[fn] || shortFn(fn) == "newConn" {
+				continue
+			}
+			seen[fn] = true
+			ok, why := true, "Conn.isWriting is false again on every return"
+			sets := 0
+			c.explore(rule, fn, core.Opts{Unroll: 0}, func(p *core.Path) {
+				if p.End != core.EndReturn {
+					return
+				}
+				var last *core.Term
+				var at *core.Event
+				for i := range p.Events {
+					if ev := &p.Events[i]; ev.Kind == core.EvStore && isFieldAddr(ev.Addr, f) {
+						last, at = ev.Val, ev
+						if b, isB := ev.Val.BoolVal(); isB && b {
+							sets++
+						}
+					}
+				}
+				if last == nil {
+					return
+				}
+				if b, isB := last.BoolVal(); !isB || b {
+					ok, why = false, "the path returning at "+c.P.Pos(p.Ret.Pos())+" leaves Conn.isWriting set (stored at "+c.P.Pos(at.Instr.Pos())+"): the next write on this connection panics with 'concurrent write' instead of returning the write error"
+				}
+			})
+			if sets == 0 {
+				continue
+			}
+			n++
+			c.R.Check(rule, shortFn(fn), "isWriting-reset-on-every-return", fn.Pos(), ok, why)
+		}
+	}
+	if n < 2 {
+		c.R.Fail(rule, "", "floor", c.fn("(*messageWriter).flushFrame").Pos(), "fewer than the 2 known functions that set Conn.isWriting were analysed")
 	}
 }
